@@ -26,7 +26,7 @@ HEAP_SCHEMA.update({
     "tok_consumed": ("bool",), "tok_edge": ("obj", "edge"), "tok_kind": ("num", "int"),
     "tok_bound": ("obj", "item"), "edge_cls": ("str",), "edge_store": ("obj", "store"),
     "item_in_pallet": ("obj", "item"), "flow_item_type": ("str",), "item_to_put": ("obj", "item"),
-    "res_users": ("num", "int"), "res_capacity": ("num", "int"),
+    "res_users": ("num", "int"), "res_capacity": ("num", "int"), "item_id": ("obj", "idval"),
 })
 
 MSTATES = ["SETUP_STATE", "IDLE_STATE", "ATLEAST_ONE_PROCESSING_STATE", "ALL_ACTIVE_BLOCKED_STATE",
@@ -81,7 +81,11 @@ class NodeLib(LibBase):
     def schema(self, cls):
         p = PROFILES[cls]
         f = {}
-        if cls in ("utils", "BaseFlowItem", "Pallet"):
+        if cls == "Pallet":
+            return {"items": ("list", IT)}
+        if cls == "BaseFlowItem":
+            return {"timestamp_creation": ("opt", ("num", "real")), "source_id": ("obj", "nodeid")}
+        if cls == "utils":
             return f
         f.update({"id": ("obj", "nodeid"), "node_setup_time": ("num", "real"),
                   "in_edges": ("opt", ("list", EDGE)), "out_edges": ("opt", ("list", EDGE)),
@@ -238,6 +242,9 @@ class NodeLib(LibBase):
 
     def may_create(self, cls, attr):
         return attr in self.schema(cls)
+
+    def get_attr_env(self):
+        return None
 
     def call_self(self, ex, name, args, kw, st, lineno):
         cls = ex.ctx.cls
